@@ -44,7 +44,7 @@ func init() {
 			need := []string{"block:paragraph", "block:atx-heading", "block:setext-heading", "block:thematic-break", "block:indented-code", "block:fenced-code", "block:block-quote", "block:list-tight", "block:list-loose",
 				"block:html-type-1", "block:html-type-2", "block:html-type-3", "block:html-type-4", "block:html-type-5", "block:html-type-6", "block:html-type-7",
 				"link:inline", "link:full", "link:collapsed", "link:shortcut", "image", "autolink", "rawhtml-inline", "hardbreak:spaces", "hardbreak:backslash", "softbreak", "lazy:quote", "lazy:list-item", "indent:tab",
-				"indent:tab-after-quote-marker", "indent:tab-after-list-marker", "label:tab", "escape:backslash", "escape:named", "escape:decimal", "escape:hex", "emphasis:*", "emphasis:**", "emphasis:_", "emphasis:__", "fenced:left-open", "list:empty-item"}
+				"indent:tab-after-quote-marker", "indent:tab-after-list-marker", "label:tab", "escape:backslash", "escape:named", "escape:decimal", "escape:hex", "emphasis:*", "emphasis:**", "emphasis:_", "emphasis:__", "fenced:left-open", "list:empty-item", "list:item-begins-with-blank-line", "list:item-begins-with-indented-code", "escape:inert-lookalike", "multiline:emphasis", "multiline:link-text", "multiline:code-span", "ref-def:multi-line-title", "ref-def:multi-line-label", "blank-line:whitespace-only"}
 			var missing []string
 			for _, k := range need {
 				if m.Sets["constructs"][k] == 0 {
